@@ -111,6 +111,100 @@ SPECS.append(FucSpec(
 ))
 
 
+# ----------------------------------------------------------------------------- Message.__init__: what _check_args gets to see
+# _check_args (and with it the one-line guarantee of __str__) inspects the arguments that are TEXT (`isinstance(arg, str)`); the
+# guarantee therefore needs the constructor to store text only: bytes arguments are decoded HERE, before the check, never later.
+# Verified for every combination of str / bytes / None over up to three positional arguments (the comprehension treats each
+# argument on its own), any command, with and without a prefix.
+def init_setup(I):
+    self = obj(I, 'self', 'Message')
+    command = sym(I, 'command', Str)
+    n = I.st.choice(4, 'nargs')
+    items = []
+    for i in range(n):
+        k = I.st.choice(3, 'kind%d' % i)
+        if k == 0:
+            items.append(sym(I, 'arg%d' % i, Str))
+        elif k == 1:
+            items.append(sym(I, 'arg%d' % i, Bytes))
+        else:
+            items.append(NONE)
+    I.st.ghost['GIVEN'] = items
+    kw = {}
+    if I.st.choice(2, 'with_prefix') == 1:
+        kw['prefix'] = sym(I, 'prefix', Str)
+    return {'self': self, 'command': command, 'args': VTuple(items), 'kwargs': VCDict(kw)}
+
+
+def s_decode(I, recv, args, kw):
+    I.st.trusted_used.add('bytes.decode(encoding): some text (uninterpreted py_decode) or UnicodeDecodeError')
+    I.st.ghost.setdefault('DECODED', []).append(recv)
+    return VStr(core.fn('py_decode', S(), S())(recv.t))
+
+
+def init_post(I, outcome, ctx):
+    kind, v = outcome
+    if kind == 'raise':
+        cover(I, 'raise')
+        I.oblige('raises_only_Error', z3.BoolVal(v.cls in ('Error', 'UnicodeDecodeError')), detail='escaping %s' % v.cls)
+        return
+    cover(I, 'return')
+    self = ctx['args']['self']
+    given = [g for g in I.st.ghost['GIVEN'] if not isinstance(g, VNone)]
+    a = I.st.ghost.get('STORED_ARGS')
+    stored = list(a.items) if isinstance(a, (VCList, VTuple)) else []
+    I.oblige('arguments_stored_one_by_one_in_order', z3.BoolVal(isinstance(a, (VCList, VTuple)) and len(stored) == len(given)),
+             detail='%d arguments given (None dropped), stored: %r' % (len(given), a))
+    for i, (g, s_) in enumerate(zip(given, stored)):
+        s_ = lib.unopt(I, s_)
+        is_text = isinstance(s_, VStr) and not s_.is_bytes
+        I.oblige('every_stored_argument_is_text', z3.BoolVal(is_text),
+                 detail='argument %d (%s given) is stored as %s: _check_args only inspects text, a bytes argument with CR/LF or a space '
+                        'would reach the wire unchecked' % (i, 'bytes' if g.is_bytes else 'str', 'bytes' if isinstance(s_, VStr) else type(s_).__name__))
+        if is_text and not g.is_bytes:
+            I.oblige('text_arguments_stored_unchanged', s_.t == g.t)
+        if is_text and g.is_bytes:
+            I.oblige('bytes_arguments_stored_decoded', s_.t == core.fn('py_decode', S(), S())(g.t))
+    I.oblige('arguments_checked_at_construction', z3.BoolVal(len(I.st.ghost.get('CHECKED', [])) >= 1),
+             detail='_check_args() must run in the constructor')
+
+
+def s_check_args_logged(I, recv, args, kw):
+    I.st.ghost.setdefault('CHECKED', []).append(recv)
+    if I.st.choice(2, 'check_args') == 1:
+        lib.raise_(I, 'Error', VStr('refused'))
+    return NONE
+
+
+INIT_REPLAY = '''
+import sys
+from circuits.protocols.irc.message import Message, Error
+bad = []
+for args in ((b'hi\\r\\nQUIT :x',), ('#c', b'hi\\r\\nQUIT :x'), (b'a b', 'tail'), (b'x\\ny', None, 'z'), ('#c', b'plain')):
+    try:
+        m = Message('PRIVMSG', *args)
+        s = str(m)
+    except Error:
+        continue
+    body = s[:-2]
+    if not s.endswith('\\r\\n') or '\\r' in body or '\\n' in body:
+        bad.append('Message(PRIVMSG, *%r) serialises to %r: not exactly one CRLF-terminated line' % (args, s))
+    if any(not isinstance(a, str) for a in m.args):
+        bad.append('Message(PRIVMSG, *%r) stores %r: a non-text argument is never checked' % (args, m.args))
+for b in bad: print(b)
+sys.exit(1 if bad else 0)
+'''
+SPECS.append(FucSpec(
+    'C18', 'circuits/protocols/irc/message.py', 'Message.__init__', init_setup, init_post, fields=dict(MSG_FIELDS, args=Any, command=Any),
+    calls={'self._check_args': s_check_args_logged, 'arg.decode': s_decode, 'str': lambda I, r, a, k: lib.to_str(I, a[0])},
+    setattr_hooks={'args': lambda I, o, v: I.st.ghost.__setitem__('STORED_ARGS', v)},
+    getattr_hooks={'args': lambda I, o: I.st.ghost.get('STORED_ARGS')},
+    exc_parents={'Error': 'Exception', 'UnicodeDecodeError': 'ValueError'}, cover=['return', 'raise'], replay=lambda model, ob: INIT_REPLAY,
+    clause='Message(command, *args): every argument is stored as text - str unchanged, bytes decoded, None dropped - in order, and '
+           '_check_args runs before the constructor returns (so that no argument escapes the CR/LF and space checks by its type); up to '
+           'three arguments of every kind combination'))
+
+
 def s_check_args(I, recv, args, kw):
     """callee contract of Message._check_args (verified above): raises Error or establishes checked_state; modifies nothing"""
     if I.st.choice(2, 'check_args') == 1:
